@@ -259,6 +259,7 @@ type ImgCfg struct {
 	Places    []string // nil = all
 	Alphas    []string // nil = all alpha classes
 	MinSide   int
+	ThinPermille int // chance (per 1000) of a very wide or very tall thin picture (one side up to 16383)
 }
 
 var sizeBoundaries = []int{1, 2, 3, 7, 8, 9, 15, 16, 17, 31, 32, 33, 47, 48, 49, 63, 64, 65}
@@ -286,8 +287,8 @@ func drawSide(t *rapid.T, cfg *ImgCfg, name string) int {
 	return v
 }
 
-var contentClasses = []string{"flat", "pal2", "pal4", "pal16", "pal256", "gradient", "photo", "noise", "tiled", "sparse", "drawn"}
-var alphaClasses = []string{"opaque", "opaque", "binary", "levels", "gradient", "noise", "transparent", "transp-colored", "semi-flat"}
+var contentClasses = []string{"flat", "pal2", "pal4", "pal16", "pal256", "gradient", "photo", "noise", "tiled", "sparse", "regions", "drawn"}
+var alphaClasses = []string{"opaque", "opaque", "binary", "levels", "gradient", "noise", "transparent", "transp-colored", "semi-flat", "late", "early"}
 
 // DrawImg draws a picture case.
 func DrawImg(t *rapid.T, cfg ImgCfg) *Img {
@@ -297,6 +298,15 @@ func DrawImg(t *rapid.T, cfg ImgCfg) *Img {
 	if cfg.BigChance > 0 && rapid.IntRange(0, 99).Draw(t, "big") < cfg.BigChance {
 		s.W = rapid.IntRange(cfg.MaxSide, cfg.BigSide).Draw(t, "bigW")
 		s.H = rapid.IntRange(cfg.MaxSide/2+1, cfg.BigSide).Draw(t, "bigH")
+	}
+	if cfg.ThinPermille > 0 && func() bool { v := rapid.IntRange(0, 999).Draw(t, "thin"); return v >= 400 && v < 400+cfg.ThinPermille }() {
+		long := rapid.SampledFrom([]int{2047, 2048, 2049, 2304, 4096, 4097, 8193, 16383}).Draw(t, "thinLong")
+		short := rapid.IntRange(1, 4).Draw(t, "thinShort")
+		if rapid.Bool().Draw(t, "thinTall") {
+			s.W, s.H = short, long
+		} else {
+			s.W, s.H = long, short
+		}
 	}
 	kinds, places, alphas := cfg.Kinds, cfg.Places, cfg.Alphas
 	if kinds == nil {
@@ -496,6 +506,45 @@ func RenderContent(w, h int, content, alpha string, seed uint64) []byte {
 				}
 			}
 		}
+	case "regions":
+		// a collage: rectangles of different textures, cut preferably on multiples of 8/16/32
+		sub := []string{"flat", "flat", "noise", "gradient", "tiled", "pal4", "photo", "sparse"}
+		var fill func(x0, y0, x1, y1, depth int)
+		fill = func(x0, y0, x1, y1, depth int) {
+			ww, hh := x1-x0, y1-y0
+			if depth == 0 || (ww < 4 && hh < 4) || r.Intn(5) == 0 {
+				part := RenderContent(ww, hh, sub[r.Intn(len(sub))], "opaque", r.U64())
+				for y := 0; y < hh; y++ {
+					copy(pix[((y0+y)*w+x0)*4:((y0+y)*w+x0+ww)*4], part[y*ww*4:(y+1)*ww*4])
+				}
+				return
+			}
+			cut := func(lo, hi int) int {
+				c := lo + 1 + r.Intn(hi-lo-1)
+				for _, g := range []int{32, 16, 8} {
+					if r.Intn(2) == 0 {
+						if cc := (c + g/2) / g * g; cc > lo && cc < hi {
+							return cc
+						}
+					}
+				}
+				return c
+			}
+			if (ww >= hh && ww >= 2) || hh < 2 {
+				c := cut(x0, x1)
+				fill(x0, y0, c, y1, depth-1)
+				fill(c, y0, x1, y1, depth-1)
+			} else {
+				c := cut(y0, y1)
+				fill(x0, y0, x1, c, depth-1)
+				fill(x0, c, x1, y1, depth-1)
+			}
+		}
+		if w < 2 && h < 2 {
+			pix[0], pix[1], pix[2] = r.Byte(), r.Byte(), r.Byte()
+		} else {
+			fill(0, 0, w, h, 1+r.Intn(3))
+		}
 	default:
 		panic("content " + content)
 	}
@@ -509,6 +558,8 @@ func RenderContent(w, h int, content, alpha string, seed uint64) []byte {
 		}
 	}
 	semi := byte(1 + r.Intn(254))
+	lateN := 1 + r.Intn(maxInt(1, minInt(w, 9)))
+	lateA := byte(r.Intn(255))
 	blk := 1 + r.Intn(6)
 	for y := 0; y < h; y++ {
 		for x := 0; x < w; x++ {
@@ -539,12 +590,31 @@ func RenderContent(w, h int, content, alpha string, seed uint64) []byte {
 				}
 			case "semi-flat":
 				pix[i] = semi
+			case "late": // opaque except the last few pixels in raster order
+				if y*w+x >= w*h-lateN {
+					pix[i] = lateA
+				} else {
+					pix[i] = 255
+				}
+			case "early": // only the very first pixel is not opaque
+				if x == 0 && y == 0 {
+					pix[i] = lateA
+				} else {
+					pix[i] = 255
+				}
 			default:
 				panic("alpha " + alpha)
 			}
 		}
 	}
 	return pix
+}
+
+func minInt(a, b int) int {
+	if a < b {
+		return a
+	}
+	return b
 }
 
 func maxInt(a, b int) int {
